@@ -306,7 +306,7 @@ func (f *g2lFn) call(c *ast.CallExpr) string {
 	if s, ok := f.callExt(c); ok { // go2lean_string.go: strings, make, Sprintf, primitives with pointer receivers
 		return s
 	}
-	if c.Ellipsis.IsValid() && !f.g.refsOn() { // go2lean_refs.go: variadic functions
+	if c.Ellipsis.IsValid() && !f.g.refsOn() && !f.ellipsisOK(c) { // go2lean_refs.go: variadic functions; go2lean_env.go
 		f.fail("variadic call `%s`", f.src(c))
 	}
 	ftv := f.g.info.Types[c.Fun]
@@ -327,10 +327,10 @@ func (f *g2lFn) call(c *ast.CallExpr) string {
 		return s
 	}
 	sig := fn.Type().(*types.Signature)
-	if sig.Variadic() {
-		if f.g.refsOn() { // go2lean_refs.go
-			return f.variadicCall(c, fn)
-		}
+	if sig.Variadic() && f.g.refsOn() { // go2lean_refs.go
+		return f.variadicCall(c, fn)
+	}
+	if sig.Variadic() && !(c.Ellipsis.IsValid() && f.ellipsisOK(c)) { // go2lean_env.go: a spread slice is passed as it is
 		f.fail("variadic function in `%s`", f.src(c))
 	}
 	key, local := f.calleeKey(fn)
@@ -390,6 +390,9 @@ func (f *g2lFn) builtin(c *ast.CallExpr) string {
 		a := f.args(c.Args)
 		return id.Name + " " + a[0] + " " + a[1]
 	case "append":
+		if s, ok := f.appendSpread(c); ok { // go2lean_env.go
+			return s
+		}
 		if c.Ellipsis.IsValid() || len(c.Args) < 1 {
 			f.fail("`%s`", f.src(c))
 		}
@@ -400,6 +403,9 @@ func (f *g2lFn) builtin(c *ast.CallExpr) string {
 		return a[0] + " ++ [" + strings.Join(a[1:], ", ") + "]"
 	}
 	if s, ok := f.builtinOther(id.Name, c); ok {
+		return s
+	}
+	if s, ok := f.builtinEnv(id.Name, c); ok { // go2lean_env.go
 		return s
 	}
 	f.fail("builtin `%s`", id.Name)
@@ -447,6 +453,9 @@ func (f *g2lFn) conversion(to types.Type, arg ast.Expr, c *ast.CallExpr) string 
 func (f *g2lFn) composite(x *ast.CompositeLit) string {
 	t := f.typeOf(x)
 	if s, ok := f.compositeExt(x, t); ok { // go2lean_string.go: map literals
+		return s
+	}
+	if s, ok := f.compositeEnv(x, t); ok { // go2lean_env.go: map literals
 		return s
 	}
 	switch g2lKindOf(t) {
@@ -636,6 +645,9 @@ func g2lRel(op token.Token) string {
 func (f *g2lFn) relation(x *ast.BinaryExpr) string {
 	lt, rt := f.typeOf(x.X), f.typeOf(x.Y)
 	if s, ok := f.relationOther(x, lt, rt); ok {
+		return s
+	}
+	if s, ok := f.relationEnv(x, lt, rt); ok { // go2lean_env.go
 		return s
 	}
 	// comparison with nil
